@@ -36,6 +36,8 @@ var (
 	}
 )
 
+var jsonPointerUnescaper = strings.NewReplacer("~1", "/", "~0", "~")
+
 // Name returns the name of JSONType
 func (its TypeOfJSON) Name() string {
 	return typeName[its]
@@ -238,6 +240,10 @@ func (its *jsonPrimitive) getTargetFromPatch(path string) (jsonType, string, err
 
 	if len(paths) < 1 {
 		return nil, "", errors.DatatypeInvalidPatch.New(its.common.L(), "incorrect path: %v", path)
+	}
+	// the reference tokens of a JSON pointer escape '~' as "~0" and '/' as "~1" (RFC 6901)
+	for i, token := range paths {
+		paths[i] = jsonPointerUnescaper.Replace(token)
 	}
 	key := paths[len(paths)-1]
 	paths = paths[1 : len(paths)-1]
